@@ -157,7 +157,7 @@ Proof. tie_tac. Qed.
 Lemma divergent_entries :
   map d_id (filter (fun d => match d_kind d with Divergent => true | Structural => false end) allowed_diffs) =
   ["enqueue-normalisation"; "enqueue-depth-limit"; "enqueue-insert-shape"; "mark-dead-reason-1"; "mark-dead-reason-2";
-   "list-without-prune"; "list-include-2"; "stats-bucket-ages-1"; "stats-bucket-ages-2"; "attempt-null-encoding-1";
-   "attempt-null-encoding-2"; "dequeue-select-and-lease"; "prune-queued-boundary"; "prune-delivered-column";
+   "list-without-prune"; "list-include-2"; "stats-bucket-ages-1"; "stats-bucket-ages-2"; "dequeue-select-and-lease";
+   "prune-queued-boundary"; "prune-delivered-column";
    "prune-dead-boundary"].
 Proof. tie_tac. Qed.
